@@ -690,7 +690,7 @@ class IterativeCondGFormula:
             raise ValueError('Before the g-formula can be calculated, the outcome model must be specified')
 
         # Check array of treatments is either 1 row or same number of rows as input data
-        treatment = np.array(treatments)
+        treatment = np.array(treatments).astype(float)  # a plan given as booleans is a plan of 0/1
         if treatment.ndim == 1:
             treatment = np.tile(treatment, (self.gf[self.exposure].shape[0], 1))
         elif treatment.shape[0] == self.gf[self.exposure].shape[0]:
